@@ -16,9 +16,11 @@ PROPS = {
         "theorems": ["DL.C11_mode", "DL.C11_mode_dict", "DL.C11_mode_needs_keys", "DL.C11_daughters_order",
                      "DL.C11_daughters_count", "DL.C11_daughters_len", "DL.C11_daughters_canonical",
                      "DL.C11_daughters_string", "DL.C11_daughters_counts", "DL.C11_daughters_counts_drop",
-                     "DL.C11_chain", "DL.C11_chain_reachable", "DL.chain_roundtrip"],
-        "partial": ["the parser-chain direction (dictionary with unsorted daughters -> class -> dictionary, equal up to the order of daughters) "
-                    "is carried by the correspondence on generated files"],
+                     "DL.C11_chain", "DL.C11_chain_reachable", "DL.chain_roundtrip",
+                     "DL.C11_parser", "DL.C11_sortItems", "DL.C11_canon_level", "DL.C11_canon_eqv", "DL.C11_canon_idem"],
+        "partial": ["C11_parser is stated for dictionaries meeting ParserChain (one line per decaying particle, repeated particles with the same "
+                    "sub-dictionary, no name both decaying and bare); that build_decay_chains produces such dictionaries for single-line "
+                    "tables is carried by the correspondence on generated files"],
         "assumptions": ["metadata keys are not bf, fs, daughters (the constructor's own parameter names)",
                         "model_params None and '' are the same value (to_dict normalises)"],
     },
